@@ -687,6 +687,7 @@ def install_threading_factories() -> None:
     TH.Lock, TH.RLock, TH.Event = Lock, RLock, Event
     # names bound by ``from threading import Lock / RLock / Event`` in the modules under test
     repl = {id(_real_threading["Lock"]): Lock, id(_real_threading["RLock"]): RLock, id(_real_threading["Event"]): Event}
+    lock_t, rlock_t = type(_real_threading["Lock"]()), type(_real_threading["RLock"]())
     for mname, mod in list(sys.modules.items()):
         if mod is None or not (mname == "jinja2" or mname.startswith("jinja2.")):
             continue
@@ -694,6 +695,23 @@ def install_threading_factories() -> None:
             f_ = repl.get(id(v_))
             if f_ is not None and v_ in (_real_threading["Lock"], _real_threading["RLock"], _real_threading["Event"]):
                 setattr(mod, k_, f_)
+                continue
+            # synchronisation OBJECTS created when the module was imported (module-level locks / events): a simulated
+            # thread parked while holding a real one would block the OS thread that carries the baton
+            if isinstance(v_, lock_t):
+                setattr(mod, k_, SimLock())
+            elif isinstance(v_, rlock_t):
+                setattr(mod, k_, SimRLock())
+            elif isinstance(v_, _real_threading["Event"]):
+                setattr(mod, k_, SimEvent())
+            elif isinstance(v_, type) and getattr(v_, "__module__", None) == mname:
+                for ck_, cv_ in list(vars(v_).items()):
+                    if isinstance(cv_, lock_t):
+                        setattr(v_, ck_, SimLock())
+                    elif isinstance(cv_, rlock_t):
+                        setattr(v_, ck_, SimRLock())
+                    elif isinstance(cv_, _real_threading["Event"]):
+                        setattr(v_, ck_, SimEvent())
 
 
 def neutralise_real_locks() -> int:
